@@ -39,6 +39,7 @@ package keeper
 
 // RepayPledgeDebt is used with one (shard release) or two (claim) distinct coins.
 //@ func (Keeper) RepayPledgeDebt(ctx, sp, rewards)
+//@   nopanic [C02.repay.nopanic] when has(PledgeDebt, sp) ==> validDenom(PledgeDebt[sp].Debt.Denom) && rewards[0].Denom == PledgeDebt[sp].Debt.Denom && (len(rewards) == 2 ==> rewards[1].Denom == PledgeDebt[sp].Debt.Denom)
 //@   requires 1 <= len(rewards) && len(rewards) <= 2
 //@   requires rewards[0] != nil && (len(rewards) == 2 ==> rewards[1] != nil && rewards[1] != rewards[0])
 //@   requires rewards[0].Amount >= 0 && (len(rewards) == 2 ==> rewards[1].Amount >= 0)
@@ -72,6 +73,8 @@ package keeper
 //@ pure pendingQ(p node_Pledge, acc int) int = p.Reward.Amount + acc * p.TotalStorage - p.RewardDebt.Amount
 
 //@ func (Keeper) ShardRelease(ctx, sp, shard) (err)
+//@   nopanic [C02.release.nopanic] when shard != nil ==> (has(PledgeDebt, shard.Sp) ==> validDenom(PledgeDebt[shard.Sp].Debt.Denom) && shard.Pledge.Denom == PledgeDebt[shard.Sp].Debt.Denom)
+//@       && (has(Pledge, str(sp)) ==> Pledge[str(sp)].TotalShardPledged.Denom == shard.Pledge.Denom && Pledge[str(sp)].TotalShardPledged.Amount >= shard.Pledge.Amount)
 //@   requires [C07.release.to] shard != nil ==> str(sp) == shard.Sp
 //@   requires has(Pledge, str(sp)) ==> Pledge[str(sp)].Creator == str(sp)
 //@   requires has(PledgeDebt, str(sp)) ==> PledgeDebt[str(sp)].Sp == str(sp) && PledgeDebt[str(sp)].Debt.Amount >= 0
